@@ -34,7 +34,8 @@ Public API
     load_corpus(dir)                                  hand-written valid documents (content=None)
     edits(), apply_edits(text, edits, schema)         1-2 local corruptions of a text (characters, tokens, keywords,
                                                       whole statements / lines deleted, duplicated or moved)
-    soups(schema)                                     token soup over the format's alphabet
+    soups(schema), plain_newick_soups()               token soup over the format's alphabet
+    plain_newick_mutants()                            quote/comment-free Newick with structure characters edited
     nexus_statement_soups()                           NEXUS blocks of well-formed statements with arbitrary arguments
     KEYWORDS, ALPHABET                                the token alphabets used by the two above
 """
@@ -232,9 +233,9 @@ ROOTING = [("", None), ("", None), ("[&R]", True), ("[&U]", False), ("[&r]", Tru
 
 
 @st.composite
-def newick_docs(draw, max_taxa=6, max_trees=3, fancy=True):
+def newick_docs(draw, max_taxa=6, max_trees=3, fancy=True, plain_labels=False):
     ntax = draw(st.integers(1, max_taxa))
-    labels = draw(label_sets(ntax))
+    labels = draw(label_sets(ntax, pools=(PLAIN_LABELS,), weights=(1,)) if plain_labels else label_sets(ntax))
     texts = [draw(nexus_label_text(l)) for l in labels]
     ntrees = draw(st.integers(1, max_trees))
     trees = []
@@ -818,6 +819,37 @@ def _unit_around(text, p, terminator):
     b = text.find(terminator, p)
     b = len(text) if b < 0 else b + 1
     return a, b
+
+
+@st.composite
+def plain_newick_soups(draw, max_tokens=30):
+    """Newick-like text over structure characters, plain labels and numbers only (no quotes, no comments): mostly
+    almost-balanced, so that readers get far into it."""
+    toks = draw(st.lists(st.sampled_from(["(", "(", ")", ")", ",", ",", ";", ":", "a", "b", "c", "d", "e", "1", "0.5",
+                                          "(a,b)", "(c,d)", ",(e,f)", ");", "(a,b);", " ", "\n"]),
+                         min_size=1, max_size=max_tokens))
+    return "".join(toks) + draw(st.sampled_from([";", ";", "", ");", "\n"]))
+
+
+@st.composite
+def plain_newick_mutants(draw, max_edits=2):
+    """A valid Newick document without quotes and comments, with 1..max_edits structure characters inserted, deleted
+    or replaced: the unbalanced / prematurely terminated statements a reader must refuse."""
+    text = draw(newick_docs(max_taxa=5, max_trees=2, fancy=False, plain_labels=True))["text"]
+    for _ in range(draw(st.integers(1, max_edits))):
+        spots = [i for i, c in enumerate(text) if c in "(),;:"]
+        op = draw(st.sampled_from(["ins", "ins_at", "ins_at", "del", "rep"]))
+        c = draw(st.sampled_from("((()));;;,:"))
+        if op == "ins" or not spots:
+            p = draw(st.integers(0, len(text)))
+            text = text[:p] + c + text[p:]
+        else:
+            p = spots[draw(st.integers(0, len(spots) - 1))]
+            if op == "ins_at":
+                text = text[:p] + c + text[p:]      # before a structure character, i.e. at a token boundary
+            else:
+                text = text[:p] + (c if op == "rep" else "") + text[p + 1:]
+    return text
 
 
 @st.composite
